@@ -10,7 +10,16 @@ component lets the real scheduler interleave: `sys.setswitchinterval(1e-6)`, N c
   B. three `SyncObj`s over an in-memory transport ticked by ONE manual tick thread, callers submitting on
      the leader and on a follower (forwarding path), queue limits 1..3 and large.
 
-and then evaluates the statements of the theorems on what was observed — deterministic pass criteria only
+Before the free-running rounds a DIRECTED round (config D: one node, a caller thread and a manual tick
+thread that is started only after the caller has filled the queue) produces every outcome class by
+construction: 'Timeout' (nobody ticks), QUEUE_FULL through a callback and through a sync call, then
+SUCCESS through callbacks and an own result through a sync call.  Rounds go on until every outcome class
+was seen and the time budget is used, at most a generous bound; a slow machine never makes the component
+inconclusive (only "nothing ran at all" does).  The clock / PRNG of pysyncobj are reset to the genuine
+ones for the run (`queue_common.real_runtime`): earlier components of the same process leave virtual
+ones behind.
+
+Then it evaluates the statements of the theorems on what was observed — deterministic pass criteria only
 (no timing assertions):
   * every call id is applied at most once on every replica; applied exactly once (on every replica, after
     the cluster went quiet) when its caller was told SUCCESS; never when it was told QUEUE_FULL /
@@ -127,31 +136,132 @@ class Outcome(object):
         self.cbs = []
 
 
+def one_call(so, objs, cid, mode, target):
+    o = objs[target]
+    oc = Outcome(cid, mode, target)
+    try:
+        if mode == "nocb":
+            oc.ret = ("value", o.add(cid))
+        elif mode == "cb":
+            oc.ret = ("value", o.add(cid, callback=lambda r, e, oc=oc: oc.cbs.append((r, e))))
+        elif mode == "sync":
+            oc.ret = ("value", o.add_sync30(cid))
+        elif mode == "sync_kw":
+            oc.ret = ("value", o.add(cid, sync=True, timeout=30))
+        elif mode == "sync_tiny":
+            oc.ret = ("value", o.add_sync(cid, timeout=0.0005))
+        elif mode == "sync_zero":
+            oc.ret = ("value", o.add(cid, sync=True, timeout=0))
+    except so.SyncObjException as e:
+        oc.ret = ("timeout",) if e.errorCode == "Timeout" else ("raised", e.errorCode)
+    except BaseException as e:   # noqa
+        oc.ret = ("crash", repr(e))
+    return oc
+
+
 def caller(so, objs, t, M, rng_choices, outs, start_evt):
     start_evt.wait()
     for k in range(M):
-        cid = 1000 * t + k
         mode, target = rng_choices[k]
-        o = objs[target]
-        oc = Outcome(cid, mode, target)
+        oc = Outcome(1000 * t + k, mode, target)     # visible as "unfinished" while the call blocks
         outs.append(oc)
+        done = one_call(so, objs, oc.cid, mode, target)
+        oc.ret, oc.cbs = done.ret, done.cbs
+
+
+def now():
+    return time.monotonic()
+
+
+def nap(sec):
+    threading.Event().wait(sec)
+
+
+def quiesce(objs, t_end):
+    """same applied sequences everywhere, queues and callback tables empty, three times in a row"""
+    quiet = 0
+    while now() < t_end and quiet < 3:
+        nap(0.01)
+        seqs = [list(o.applied) for o in objs]
+        empty = all(len(o._SyncObj__commandsQueue._FastQueue__queue) == 0 for o in objs)
+        pend = sum(len(o._SyncObj__commandsWaitingCommit) + len(o._SyncObj__commandsWaitingReply) for o in objs)
+        if empty and pend == 0 and all(x == seqs[0] for x in seqs):
+            quiet += 1
+        else:
+            quiet = 0
+    return quiet >= 3
+
+
+def directed_round(so, parts, qsize, batch, deadline):
+    """Config D: every outcome class by construction (real caller thread, real manual tick thread)."""
+    Net, MemTransport, Obj, conf = parts
+    net = Net()
+
+    class T(MemTransport):
+        pass
+    T.net = net
+    o = Obj("n0:1", [], conf(autoTick=False, commandsQueueSize=qsize, appendEntriesUseBatch=batch), T)
+    objs = [o]
+    outs = []
+    info = {"cfg": "D", "N": 1, "M": qsize + 6, "qsize": qsize, "batch": batch, "leader": [0]}
+    stop, tick_go, phase1_done, phase3_go = (threading.Event() for _ in range(4))
+    tick_err = []
+
+    def tick_loop():
+        tick_go.wait()
         try:
-            if mode == "nocb":
-                oc.ret = ("value", o.add(cid))
-            elif mode == "cb":
-                oc.ret = ("value", o.add(cid, callback=lambda r, e, oc=oc: oc.cbs.append((r, e))))
-            elif mode == "sync":
-                oc.ret = ("value", o.add_sync30(cid))
-            elif mode == "sync_kw":
-                oc.ret = ("value", o.add(cid, sync=True, timeout=30))
-            elif mode == "sync_tiny":
-                oc.ret = ("value", o.add_sync(cid, timeout=0.0005))
-            elif mode == "sync_zero":
-                oc.ret = ("value", o.add(cid, sync=True, timeout=0))
-        except so.SyncObjException as e:
-            oc.ret = ("timeout",) if e.errorCode == "Timeout" else ("raised", e.errorCode)
-        except BaseException as e:   # noqa
-            oc.ret = ("crash", repr(e))
+            while not stop.is_set():
+                o.doTick(0.0)
+        except BaseException:   # noqa
+            import traceback
+            tick_err.append(traceback.format_exc()[-1200:])
+
+    def body():
+        k = [0]
+
+        def call(mode):
+            oc = Outcome(k[0], mode, 0)
+            outs.append(oc)
+            k[0] += 1
+            done = one_call(so, objs, oc.cid, mode, 0)
+            oc.ret, oc.cbs = done.ret, done.cbs
+        # phase 1: nobody ticks.  The queue holds qsize+1 entries (`len > maxSize => Full`).
+        call("sync_zero")                 # enqueued, no answer can come: 'Timeout'
+        for _ in range(qsize):
+            call("cb")                    # fills the queue
+        call("cb")                        # Queue.Full -> callback(None, QUEUE_FULL)
+        call("sync_kw")                   # Queue.Full -> raises QUEUE_FULL
+        phase1_done.set()
+        phase3_go.wait(max(0.1, deadline - now()))
+        # phase 3: the tick thread runs, the node leads: own results
+        call("sync")
+        call("cb")
+        call("sync_kw")
+
+    ticker = threading.Thread(target=tick_loop, daemon=True)
+    th = threading.Thread(target=body, daemon=True)
+    ticker.start()
+    th.start()
+    phase1_done.wait(max(0.1, deadline - now()))
+    tick_go.set()
+    while now() < deadline and not (o._isLeader() and len(o.applied) >= qsize + 1):
+        nap(0.005)
+    phase3_go.set()
+    th.join(max(0.1, deadline - now()))
+    info["callers_stuck"] = 1 if th.is_alive() else 0
+    info["quiesced"] = quiesce(objs, min(deadline, now() + 5))
+    stop.set()
+    tick_go.set()
+    ticker.join(5)
+    try:
+        o.destroy()
+    except Exception:   # noqa
+        pass
+    viol = []
+    if tick_err:
+        viol.append(("tick-thread:exception-escaped", tick_err[0]))
+    v2, cov = evaluate(objs, [outs], 0, info)
+    return info, viol + v2, cov
 
 
 MODES = ["nocb", "cb", "cb", "sync", "sync", "sync_kw", "sync_tiny", "sync_zero"]
@@ -188,11 +298,11 @@ def run_round(so, parts, rng, cfg, N, M, qsize, batch, deadline):
         ticker = threading.Thread(target=tick_loop, daemon=True)
         ticker.start()
     # wait for a leader
-    t_end = time.time() + 10
-    while time.time() < t_end:
+    t_end = min(deadline, now() + 20)
+    while now() < t_end:
         if any(o._isLeader() for o in objs) and all(o._getLeader() is not None for o in objs):
             break
-        time.sleep(0.005)
+        nap(0.005)
     leader_i = [i for i, o in enumerate(objs) if o._isLeader()]
     info = {"cfg": cfg, "N": N, "M": M, "qsize": qsize, "batch": batch, "leader": leader_i}
     outs_per_thread = [[] for _ in range(N)]
@@ -210,21 +320,9 @@ def run_round(so, parts, rng, cfg, N, M, qsize, batch, deadline):
             th.start()
         start_evt.set()
         for th in ths:
-            th.join(max(0.1, deadline - time.time()))
+            th.join(max(0.1, deadline - now()))
         info["callers_stuck"] = sum(1 for th in ths if th.is_alive())
-        # quiesce: same applied sequences everywhere, queues empty, twice in a row
-        quiet = 0
-        t_end = min(deadline, time.time() + 5)
-        while time.time() < t_end and quiet < 3:
-            time.sleep(0.01)
-            seqs = [list(o.applied) for o in objs]
-            empty = all(len(o._SyncObj__commandsQueue._FastQueue__queue) == 0 for o in objs)
-            pend = sum(len(o._SyncObj__commandsWaitingCommit) + len(o._SyncObj__commandsWaitingReply) for o in objs)
-            if empty and pend == 0 and all(s == seqs[0] for s in seqs):
-                quiet += 1
-            else:
-                quiet = 0
-        info["quiesced"] = quiet >= 3
+        info["quiesced"] = quiesce(objs, min(deadline, now() + 5))
     stop.set()
     if ticker is not None:
         ticker.join(5)
@@ -234,12 +332,19 @@ def run_round(so, parts, rng, cfg, N, M, qsize, batch, deadline):
         except Exception:   # noqa
             pass
     if cfg == "A":
-        time.sleep(0.01)
+        nap(0.01)
     if tick_err:
         viol.append(("tick-thread:exception-escaped", tick_err[0]))
     if not leader_i:
         return info, viol, {}
-    # ---- evaluate the theorems' statements on the observation
+    v2, cov = evaluate(objs, outs_per_thread, leader_i[0], info)
+    return info, viol + v2, cov
+
+
+def evaluate(objs, outs_per_thread, leader, info):
+    """the theorems' statements on the observation of one round"""
+    viol = []
+    leader_i = [leader]
     seqs = [list(o.applied) for o in objs]
     cov = collections.Counter()
     for i, s in enumerate(seqs):
@@ -302,37 +407,65 @@ def run_round(so, parts, rng, cfg, N, M, qsize, batch, deadline):
                 if told[1] in NEVER and any(oc.cid in a for a in applied):
                     viol.append(("apply:refused-command-was-applied", "%d refused with %r" % (oc.cid, told[1])))
     info["applied"] = len(ref)
-    return info, viol, cov
+    return viol, cov
+
+
+NEED = ["told_success", "told_fail_1", "sync_value", "sync_timeout", "sync_raised", "cb_fired",
+        "target_follower", "rounds_A", "rounds_B", "rounds_D"]
 
 
 def run(ctx):
-    t0 = time.time()
     so = qc.load(ctx)
+    with qc.real_runtime(so):       # genuine clock / PRNG: elections need real time to pass
+        return _run(ctx, so)
+
+
+def _run(ctx, so):
+    t0 = now()
     parts = build(so)
     rng = ctx.rng("queue_threads")
-    budget = ctx.scale(10.0, 240.0)
+    budget = ctx.scale(10.0, 240.0)          # time spent when everything is reached early
+    hard = ctx.scale(75.0, 420.0)            # bound for reaching every outcome class on a slow machine
     res = {"cases": 0, "distinct": 0, "coverage": {}, "samples": [], "disagreements": [], "violations": []}
     cov = collections.Counter()
     old_si = sys.getswitchinterval()
     sys.setswitchinterval(1e-6)
-    plan = []
+    plan = [("D", 1, True), ("D", 2, False)]
     for qsize in (1, 2, 3, 100000):
         for cfg in ("A", "B"):
             plan.append((cfg, qsize, qsize != 2))
     try:
         rnd = 0
-        while time.time() - t0 < budget:
+        while True:
+            elapsed = now() - t0
+            reached = all(cov.get(k, 0) > 0 for k in NEED)
+            if elapsed >= hard or (elapsed >= budget and reached):
+                break
             cfg, qsize, batch = plan[rnd % len(plan)]
             if rnd >= len(plan):
                 batch = rng.random() < 0.6
-            N = rng.choice([2, 3, 4, 6])
-            M = rng.choice([5, 10, 20])
-            info, viol, c = run_round(so, parts, rng, cfg, N, M, qsize, batch, t0 + budget + 10)
+            if not reached and elapsed >= budget:
+                # overtime: only the configurations that still have something to contribute
+                if cov.get("rounds_D", 0) == 0 or any(cov.get(k, 0) == 0 for k in NEED[:6]):
+                    cfg, qsize = "D", 1
+                elif cov.get("target_follower", 0) == 0 or cov.get("rounds_B", 0) == 0:
+                    cfg = "B"
+                else:
+                    cfg = "A"
+            deadline = min(t0 + hard + 5, now() + 30)
+            if cfg == "D":
+                N, M = 1, qsize + 6
+                info, viol, c = directed_round(so, parts, qsize, batch, deadline)
+            else:
+                N = rng.choice([2, 3, 4, 6])
+                M = rng.choice([5, 10, 20])
+                info, viol, c = run_round(so, parts, rng, cfg, N, M, qsize, batch, deadline)
             rnd += 1
-            res["cases"] += N * M if c else 0
+            res["cases"] += sum(v for k, v in c.items() if k.startswith("mode_"))
             cov.update(c)
-            cov["rounds_" + cfg] += 1
-            cov["rounds_q%s" % (qsize if qsize < 10 else "big")] += 1
+            if c:
+                cov["rounds_" + cfg] += 1
+                cov["rounds_q%s" % (qsize if qsize < 10 else "big")] += 1
             if info.get("quiesced"):
                 cov["rounds_quiesced"] += 1
             if info.get("skipped"):
@@ -347,16 +480,14 @@ def run(ctx):
                                               "replay": {"kind": "threads", "round": info, "seed": ctx.seed,
                                                          "note": "real-thread schedule: re-run the component with the same seed; "
                                                                  "the interleaving itself is chosen by the OS"}})
-            if rnd >= len(plan) and time.time() - t0 > budget:
-                break
     finally:
         sys.setswitchinterval(old_si)
     res["distinct"] = res["cases"]       # every call has its own id and its own position in a real schedule
+    missed = [k for k in NEED if cov.get(k, 0) == 0]
     res["coverage"] = dict(cov)
-    res["wall_s"] = round(time.time() - t0, 2)
+    res["coverage"]["outcome_classes_not_reached"] = missed
+    res["wall_s"] = round(now() - t0, 2)
     res["notes"] = "VALIDATION of the model's atomicity assumptions with real threads; not a proof"
-    need = ["told_success", "told_fail_1", "sync_value", "sync_timeout", "cb_fired", "target_follower", "rounds_A", "rounds_B"]
-    missed = [k for k in need if cov.get(k, 0) == 0]
-    if missed:
-        res["inconclusive"] = "coverage floor missed: " + ",".join(missed)
+    if res["cases"] == 0:
+        res["inconclusive"] = "no round produced a single call (no leader was ever elected within %.0f s)" % hard
     return res
